@@ -44,8 +44,17 @@ SetOf(s) == {s[k] : k \in DOMAIN s}
 (*                 / the source state predicted by the model (Incremental)   *)
 (*  r.model_omitted  omission predicted by the model                         *)
 (*  r.loadable     every blob of the new snapshot can be loaded              *)
+(*  r.fault        "none" | "treeloss" / "dataloss" (a tree blob / the data   *)
+(*                 blobs of the parent snapshot were lost before this backup; *)
+(*                 r.damaged) | "readerr" (this backup itself met a read      *)
+(*                 error in a source file: it is no backup "of the same       *)
+(*                 source" as the reference and is not judged here; its       *)
+(*                 snapshot is the parent of later, judged backups)           *)
+(*  r.failed       the backup command failed without writing a snapshot and   *)
+(*                 without omitting it (the parentless one succeeded)         *)
 RecOK(r) ==
-  r.premise =>
+  (r.premise /\ r.fault # "readerr") =>
+    /\ ~r.failed
     /\ r.omitted = (r.skip /\ r.has_parent /\ r.parent_tree = r.full_tree)
     /\ (~r.damaged => r.omitted = r.model_omitted)
     /\ ~r.omitted => /\ r.inc_tree = r.full_tree
